@@ -291,7 +291,7 @@ func (b *Bridge) interpUnmarshal(r restlicodec.Reader, t Ty) (*V, error) {
 		// populateLocalDefaultValues: the record's OWN defaulted fields
 		for _, f := range d.Fields {
 			if f.Default != nil && out.Get(f.Name) == nil {
-				out.KVs = append(out.KVs, KV{f.Name, f.Default})
+				out.KVs = append(out.KVs, KV{f.Name, b.Env.expectedOwnOnly(f.Ty, f.Default)})
 			}
 		}
 		return out, nil
